@@ -79,6 +79,21 @@ func scenarioC19(rc *RunCtx) *Violation {
 		p.AddCSSSite(g)
 		rc.Probe("profile_css_site")
 	}
+	if g.n(12) == 0 {
+		// a large project (more than 256 files switches the metafile to its compact form)
+		// whose extra entry point lives in a directory with a space in its name
+		n := 262 + g.n(40)
+		for i := 0; i < n; i++ {
+			next := ""
+			if i+1 < n {
+				next = fmt.Sprintf("import \"./f%d.js\";\n", i+1)
+			}
+			p.Extra[fmt.Sprintf("src/big dir/f%d.js", i)] = fmt.Sprintf("%sconsole.log(\"BIG%d\");\n", next, i)
+		}
+		p.ExtraEntries = append(p.ExtraEntries, "src/big dir/f0.js")
+		o.Bundle = true
+		rc.Probe("profile_large_project")
+	}
 	d := newDisk(g)
 	d.Gran = granChoices[g.n(len(granChoices))]
 	cfg := HistCfg{Steps: 1 + g.n(6), InPlace: g.n(2) == 1, EditsPerStep: 3}
